@@ -197,6 +197,28 @@ func (c chunkSpec) String() string {
 	return fmt.Sprintf("%s%d/eof%v/z%d", c.Mode, c.K, c.EOFWithData, c.ZeroEvery)
 }
 
+// truncatedReader delivers its data and then reports, on every further call, that the stream was cut short
+// (0, io.ErrUnexpectedEOF) - what crypto/tls, compress/gzip and length-framed transports do when the peer goes
+// away. A consumer must come back with a result or an error; one that keeps polling is stopped by a panic.
+type truncatedReader struct {
+	data  []byte
+	pos   int
+	polls int
+}
+
+func (t *truncatedReader) Read(p []byte) (int, error) {
+	if t.pos < len(t.data) {
+		n := copy(p, t.data[t.pos:])
+		t.pos += n
+		return n, nil
+	}
+	t.polls++
+	if t.polls > 100000 {
+		panic("reader polled 100000 times after it reported the end of the stream (io.ErrUnexpectedEOF)")
+	}
+	return 0, io.ErrUnexpectedEOF
+}
+
 type chunkReader struct {
 	data   []byte
 	pos    int
